@@ -22,8 +22,7 @@ class CFG:
         self._n = 3
         self.node_of = {}         # id(stmt) -> node
         ends = self._block(func_node.body, [ENTRY], loop=None, handlers=[])
-        for e in ends:
-            self._edge(e, EXIT)
+        self._link(ends, EXIT)
         self.pred = {n: set() for n in self.succ}
         for a, bs in self.succ.items():
             for b in bs:
